@@ -244,4 +244,4 @@ enum ChannelEndState {
 
 #[cfg(kani)]
 #[path = "/verif/harness/broker/channel.rs"]
-mod verif;
+pub(crate) mod verif;
